@@ -180,7 +180,8 @@ Definition fit_identity (st : store) (k : gkind) (ids : list Z) : list gfeat :=
       (select_ids st k ids).
 
 (* make_pairwise: std::map keyed by (min, max), first insertion wins, iterated in key order.
-   The stored value is (i1, i2) or the swapped (i2, i1): indices into mapping1 / mapping2. *)
+   The stored value is (i1, i2): a row of mapping1 and a row of mapping2 (expressions translated from the source; before
+   the repo fix the pair was swapped when feature1 > feature2 and then indexed mapping1 with a row number of mapping2). *)
 Definition pkey := (Z * Z)%type.
 Definition pkey_eqb (a b : pkey) : bool := (fst a =? fst b) && (snd a =? snd b).
 Definition pkey_ltb (a b : pkey) : bool := (fst a <? fst b) || ((fst a =? fst b) && (snd a <? snd b)).
@@ -196,7 +197,7 @@ Definition make_pairwise (m1 m2 : list Z) : list (Z * Z) :=
   let mp := fold_left (fun acc '(i1, i2) =>
                          let f1 := znth i1 m1 0 in let f2 := znth i2 m2 0 in
                          pmap_insert (src_pair_key_lo f1 f2, src_pair_key_hi f1 f2)
-                                     (if src_pair_keep_order f1 f2 then (i1, i2) else (i2, i1)) acc)
+                                     (src_pair_value_first i1 i2, src_pair_value_second i1 i2) acc)
                       pairs [] in
   map (fun '(_, (i1, i2)) => (znth i1 m1 0, znth i2 m2 0)) mp.
 
